@@ -62,6 +62,10 @@ class BitArr(list):
     endian = "big"
 
 
+class GenList(list):
+    """the elements a folded generator expression produces (so that next() on it can be told from next() on a list)"""
+
+
 class NPArr:
     """numpy.ndarray of ints folded to nested lists (1-D or 2-D)."""
 
@@ -536,7 +540,7 @@ SAFE = {
     "dict": dict, "list": list, "tuple": tuple, "range": range, "enumerate": enumerate, "zip": zip,
     "reversed": reversed, "sorted": sorted, "len": len, "bytes": bytes, "int": int, "set": set,
     "frozenset": frozenset, "abs": abs, "min": min, "max": max, "sum": sum, "bool": bool, "str": str,
-    "divmod": divmod, "float": float, "bytearray": bytearray, "any": any, "all": all, "map": map, "slice": slice, "pow": pow, "filter": filter,
+    "divmod": divmod, "float": float, "bytearray": bytearray, "any": any, "all": all, "map": map, "slice": slice, "pow": pow, "filter": filter, "next": next, "iter": iter, "round": round, "hex": hex, "bin": bin, "ord": ord, "chr": chr, "isinstance": isinstance, "repr": repr,
 }
 MAX_STEPS = 2_000_000
 
@@ -814,7 +818,8 @@ class Folder:
         self._comp(n, loc, lambda l: out.append(self.ev(n.elt, l)))
         return out
 
-    ev_GeneratorExp = ev_ListComp
+    def ev_GeneratorExp(self, n, loc):
+        return GenList(self.ev_ListComp(n, loc))
 
     def ev_SetComp(self, n, loc):
         out = set()
@@ -853,6 +858,13 @@ class Folder:
             if f.info.kind == "classmethod":
                 a = [ClassRef(f.bound_cls or f.info.cls)] + a
             return self.call_func(f.info, a, kw)
+        if f is next and args and isinstance(args[0], GenList):
+            # next(<generator expression>[, default]): the first element the generator would produce
+            if args[0]:
+                return args[0][0]
+            if len(args) > 1:
+                return args[1]
+            raise Unfoldable(f"call {fn_txt}: StopIteration")
         if callable(f):
             try:
                 r = f(*args, **kw)
